@@ -1,7 +1,7 @@
 (** C11: every admin endpoint requires a valid session or credentials once a
     user exists.  Only statements here; proofs live in Proofs/AuthHttp.v and
     Proofs/Routes.v (the latter over the generated table Gen/Routes.v). *)
-From AGH Require Import Base.Run Model.Session Model.AuthHttp Model.AuthLife Proofs.AuthHttp Proofs.AuthCreds Proofs.AuthGlob Proofs.AuthMethod Proofs.AuthReload Proofs.AuthLife Proofs.Routes Gen.Routes.
+From AGH Require Import Base.Run Model.Session Model.AuthHttp Model.AuthLife Model.AuthMux Proofs.AuthHttp Proofs.AuthCreds Proofs.AuthGlob Proofs.AuthMethod Proofs.AuthReload Proofs.AuthLife Proofs.AuthMux Proofs.Routes Gen.Routes Gen.RoutesMux.
 From stdpp Require Import gmap.
 Local Open Scope Z_scope.
 
@@ -603,3 +603,107 @@ Print Assumptions C11_wrappers_code.
 Theorem C11_configure_code : configure_code_ok Gen.Routes.configure_code = true.
 Proof. exact configure_code_is_ok. Qed.
 Print Assumptions C11_configure_code.
+
+(** * Round 6: which mux a server serves, and paths nobody declared *)
+
+(** Whatever a ServeMux serves is one of the registrations it carries, and
+    the pattern of that registration matches the path: for every list of
+    registrations and every (clean) path. *)
+Theorem C11_mux_serves_registered : forall (X : Type) (regs : list (bytes * X)) path p x,
+  mux_find regs path = FServe p x -> In (p, x) regs /\ pat_matches p path = true.
+Proof. exact (@find_serves_registered). Qed.
+Print Assumptions C11_mux_serves_registered.
+
+(** Default-deny: a path that no registered pattern other than "/" matches is
+    answered by a registration of "/" or by nobody (404). *)
+Theorem C11_mux_default_deny : forall (X : Type) (regs : list (bytes * X)) path,
+  undeclared (map fst regs) path = true ->
+  (exists x, In (str_root, x) regs /\ mux_find regs path = FServe str_root x) \/ mux_find regs path = FNone.
+Proof. exact (@find_undeclared). Qed.
+Print Assumptions C11_mux_default_deny.
+
+(** Every server of the current source (tools/routes, Gen/RoutesMux.v,
+    re-checked each run) serves a mux whose every write in the module is
+    [http.NewServeMux()]: the admin mux [globalContext.mux] (at least one
+    server serves it), or the profiling server's own mux on the loopback
+    address, started only under [http.pprof.enabled]; no mux of the module is
+    handed to foreign code except that one to golibs' RoutePprof; the module
+    does not mention [http.DefaultServeMux]. *)
+Theorem C11_admin_muxes_private :
+  mux_table_ok Gen.RoutesMux.mux_rows Gen.RoutesMux.mux_escapes Gen.RoutesMux.default_mentions Gen.RoutesMux.pprof_guarded = true.
+Proof. exact all_muxes_private. Qed.
+Print Assumptions C11_admin_muxes_private.
+
+Theorem C11_mux_table_sound : forall rows escapes mentions g,
+  mux_table_ok rows escapes mentions g = true ->
+  (forall row, In row rows -> mr_kind row = MuxFresh) /\
+  (exists row, In row rows /\ mr_mux row = str_mux_global) /\
+  (forall m callee p fn, In (m, callee, p, fn) escapes -> m <> str_mux_global) /\
+  mentions = [].
+Proof. exact mux_table_ok_sound. Qed.
+Print Assumptions C11_mux_table_sound.
+
+(** ... hence carries exactly what the module declares on it, whatever the
+    init functions of linked packages ([foreign]) have put on the
+    process-global default mux. *)
+Theorem C11_server_muxes_carry_declared_only : forall (X : Type) row,
+  In row Gen.RoutesMux.mux_rows ->
+  forall declared foreign : list (bytes * X), mux_content (mr_kind row) declared foreign = Some declared.
+Proof. exact (@gen_muxes_serve_declared). Qed.
+Print Assumptions C11_server_muxes_carry_declared_only.
+
+(** The declared table of the current source on such a mux, in front of ANY
+    handlers: once an administrator exists, an unauthenticated request for a
+    path that is not public and that no declared pattern other than "/"
+    matches is answered 404 or refused by the wrappers of the "/" route; no
+    handler's answer comes back and the application state is untouched. *)
+Theorem C11_undeclared_path_not_served : forall (A R : Type) (hs : route -> handler A R) e (w : world A) r,
+  undeclared (map rt_pattern Gen.Routes.routes) (r_path r) = true ->
+  e_auth_required e = true -> is_public (r_path r) = false -> authenticated e (w_sess w) r = false ->
+  exists w' a, mux_serve (route_regs Gen.Routes.reg_method hs Gen.Routes.routes) e w r = (w', a) /\
+    w_app w' = w_app w /\ not_handler a /\ session_effect e w r w'.
+Proof. exact (@gen_undeclared_not_served). Qed.
+Print Assumptions C11_undeclared_path_not_served.
+
+(** The same for any table that passes the route check. *)
+Theorem C11_undeclared_path_not_served_any_table : forall (A R : Type) re rm rts bs ms ss (hs : route -> handler A R) e (w : world A) r,
+  table_ok rts re rm bs ms ss = true ->
+  undeclared (map rt_pattern rts) (r_path r) = true ->
+  e_auth_required e = true -> is_public (r_path r) = false -> authenticated e (w_sess w) r = false ->
+  exists w' a, mux_serve (route_regs rm hs rts) e w r = (w', a) /\
+    w_app w' = w_app w /\ not_handler a /\ session_effect e w r w'.
+Proof. exact (@undeclared_path_not_served). Qed.
+Print Assumptions C11_undeclared_path_not_served_any_table.
+
+Example C11_undeclared_premises_satisfiable :
+  undeclared (map rt_pattern Gen.Routes.routes) p_pprof_heap = true /\
+  undeclared (map rt_pattern Gen.Routes.routes) [47;100;101;98;117;103;47;118;97;114;115]%N = true /\
+  undeclared (map rt_pattern Gen.Routes.routes) p_status = false.
+Proof. exact gen_undeclared_ex. Qed.
+Print Assumptions C11_undeclared_premises_satisfiable.
+
+Example C11_undeclared_example :
+  table_ok [ex_static; ex_status] [WPostInstall] ex_rm [] [] [] = true /\
+  undeclared (map rt_pattern [ex_static; ex_status]) p_pprof_heap = true /\
+  undeclared (map rt_pattern [ex_static; ex_status]) p_status = false /\
+  e_auth_required ex_env = true /\ is_public p_pprof_heap = false /\
+  authenticated ex_env s_init (ex_anon p_pprof_heap) = false /\
+  mux_serve (route_regs ex_rm (fun _ => ex_h) [ex_static; ex_status]) ex_env ex_w (ex_anon p_pprof_heap) = (ex_w, AStatus 403).
+Proof. exact undeclared_ex. Qed.
+Print Assumptions C11_undeclared_example.
+
+(** Refuted variant: the same declared table on [http.DefaultServeMux] (or
+    behind a Server with a nil Handler), on which net/http/pprof's init has
+    registered "/debug/pprof/": every declared route keeps its wrappers and
+    its answers, and the anonymous GET /debug/pprof/heap reaches the profile
+    handler. *)
+Theorem C11_default_mux_refuted :
+  exists (foreign : list (bytes * handler unit bool)) regs,
+    mux_content MuxDefault (route_regs ex_rm (fun _ => ex_h) [ex_static; ex_status]) foreign = Some regs /\
+    mux_content MuxNil (route_regs ex_rm (fun _ => ex_h) [ex_static; ex_status]) foreign = Some regs /\
+    e_auth_required ex_env = true /\
+    authenticated ex_env s_init (ex_anon p_pprof_heap) = false /\
+    mux_serve regs ex_env ex_w (ex_anon p_pprof_heap) = (ex_w, AHandler true) /\
+    mux_serve regs ex_env ex_w (ex_anon p_status) = (ex_w, AStatus 403).
+Proof. exact default_mux_refuted. Qed.
+Print Assumptions C11_default_mux_refuted.
